@@ -332,6 +332,9 @@ func (g *engine) strictCases(rng *lib.Rng, reps int) {
 						types[i] = concrete[i]
 					}
 				}
+				if row.Name == "*" {
+					exprh.ClampRepeatCounts(vals)
+				}
 				env := exprh.NewEnv(types)
 				args := make([]logical.Expression, n)
 				for i := range args {
@@ -413,7 +416,11 @@ func (g *engine) filterCases(rng *lib.Rng, n int) {
 		if c < 6 {
 			// exhaustive over the two three-valued columns
 			for _, t := range tuples(2) {
-				rows = append(rows, []octosql.Value{tvVals[t[0]], tvVals[t[1]], octosql.NewInt(int64(t[0])), tvVals[t[1]]})
+				c2 := octosql.NewInt(int64(t[0] + t[1]))
+				if t[0] == 2 {
+					c2 = octosql.NewNull()
+				}
+				rows = append(rows, []octosql.Value{tvVals[t[0]], tvVals[t[1]], c2, tvVals[t[1]]})
 			}
 		} else {
 			for i := 0; i < nrows; i++ {
